@@ -29,19 +29,34 @@ func ccGoid() int64 {
 	return id
 }
 
-// ccThreads maps goroutine ids to harness thread names.
+// ccThreads maps goroutine ids to harness thread names.  Names are only valid within one case (epoch): a goroutine
+// that outlives its case (the machine was too busy for it to finish before the case ended) is no longer reported by
+// Current, so its hook events and results cannot be mistaken for those of a thread of the same name in a later case.
 type ccThreads struct {
-	mu sync.Mutex
-	m  map[int64]string
+	mu    sync.Mutex
+	m     map[int64]ccEntry
+	epoch int64
 }
 
-func newCCThreads() *ccThreads { return &ccThreads{m: map[int64]string{}} }
+type ccEntry struct {
+	name  string
+	epoch int64
+}
+
+func newCCThreads() *ccThreads { return &ccThreads{m: map[int64]ccEntry{}} }
+
+// NextEpoch starts a new case: every goroutine registered so far becomes anonymous.
+func (t *ccThreads) NextEpoch() {
+	t.mu.Lock()
+	t.epoch++
+	t.mu.Unlock()
+}
 
 // Register binds the calling goroutine to name; call it first thing inside the goroutine.
 func (t *ccThreads) Register(name string) {
 	id := ccGoid()
 	t.mu.Lock()
-	t.m[id] = name
+	t.m[id] = ccEntry{name, t.epoch}
 	t.mu.Unlock()
 }
 
@@ -52,16 +67,20 @@ func (t *ccThreads) Unregister() {
 	t.mu.Unlock()
 }
 
-// Current returns the harness thread name of the calling goroutine ("" if none).
+// Current returns the harness thread name of the calling goroutine ("" if none, or if it belongs to an earlier case).
 func (t *ccThreads) Current() string {
 	id := ccGoid()
 	t.mu.Lock()
 	defer t.mu.Unlock()
-	return t.m[id]
+	if e, ok := t.m[id]; ok && e.epoch == t.epoch {
+		return e.name
+	}
+	return ""
 }
 
 func (t *ccThreads) Reset() {
 	t.mu.Lock()
-	t.m = map[int64]string{}
+	t.m = map[int64]ccEntry{}
+	t.epoch++
 	t.mu.Unlock()
 }
